@@ -286,8 +286,15 @@ def isinstance_test(test, var: str = None):
     if var is not None and x != var:
       return None
     t = test.args[1]
-    ts = t.elts if isinstance(t, ast.Tuple) else [t]
-    return x, [src(e) for e in ts]
+
+    def alts(e):
+      # (A, B) and A | B both mean "A or B"
+      if isinstance(e, ast.Tuple):
+        return [y for z in e.elts for y in alts(z)]
+      if isinstance(e, ast.BinOp) and isinstance(e.op, ast.BitOr):
+        return alts(e.left) + alts(e.right)
+      return [e]
+    return x, [src(e) for e in alts(t)]
   return None
 
 
